@@ -34,18 +34,26 @@ def Plain (cls : Cls) : Prop :=
   cls = .dense ∨ cls = .activation ∨ cls = .conv1d ∨ cls = .conv2d ∨ cls = .sepConv2d ∨
   cls = .dwConv2d ∨ cls = .scaleShift
 
-/-- QDense, QActivation, QConv1D, QConv2D (no mask), QSeparableConv2D, QDepthwiseConv2D,
-    QScaleShift: output = activation (stock layer on weights `q_i(w_i)`). -/
+/-- QConv1D reaches causal padding through `K.conv1d`, whose `temporal_padding` pads axis 1: that is
+    the time axis only under `channels_last` (see `C11_conv1d_causal_channelsFirst_counterexample`). -/
+def CausalOK (cls : Cls) (c : LCfg) : Prop :=
+  cls = .conv1d → c.conv.padding = .causal → c.conv.df = .channelsLast
+
+/-- QDense, QActivation, QConv1D (both data formats; causal only under channels_last — `_partial`
+    in that respect), QConv2D (no mask), QSeparableConv2D, QDepthwiseConv2D, QScaleShift:
+    output = activation (stock layer on weights `q_i(w_i)`). -/
 theorem C11_dropin (I : Interp T) (E : Env T) (cls : Cls) (c : LCfg) (hc : Plain cls)
-    (hm : c.hasMask = false) (ha : cls = .activation → c.hasAct = true) :
+    (hm : c.hasMask = false) (ha : cls = .activation → c.hasAct = true) (hcf : CausalOK cls c) :
     eval I E (qlayer cls c) = actOf c E (eval I (preEnv c E) (kerasLayer cls c)) := by
   rcases hc with h | h | h | h | h | h | h <;> subst h
   · simp only [qlayer, kerasLayer, qDense, kDense, qw, withAct, actOf, preEnv]
     cfg_cases c <;> simp [eval, *]
   · simp [qlayer, kerasLayer, qActivation, actOf, preEnv, eval, ha rfl]
   · simp only [qlayer, kerasLayer, qConv1d, kConv1d, kConv1dOp, qw, withAct, actOf, preEnv]
-    by_cases hp : c.conv.padding = .causal <;>
-    cfg_cases c <;> simp [eval, *]
+    by_cases hp : c.conv.padding = .causal
+    · have hdf : c.conv.df = .channelsLast := hcf rfl hp
+      cfg_cases c <;> simp [eval, spatialStart, *]
+    · cfg_cases c <;> simp [eval, *]
   · simp only [qlayer, kerasLayer, qConv2d, kConv2d, qw, withAct, actOf, preEnv, hm]
     cfg_cases c <;> simp [eval, *]
   · simp only [qlayer, kerasLayer, qSepConv2d, kSepConv2d, qw, withAct, actOf, preEnv]
@@ -101,12 +109,14 @@ theorem C11_dropin_avgPool (I : Interp T) (E : Env T) (c : LCfg) (hq : c.hasQ 0 
   simp only [qlayer, kerasLayer, qAvgPool2d, kAvgPool2d, withAct, actOf, hq, recip]
   cases c.hasAct <;> simp [eval]
 
-/-- QGlobalAveragePooling2D with an average quantizer: pooling SUM times the quantized reciprocal. -/
+/-- QGlobalAveragePooling2D with an average quantizer: pooling SUM of the input times the quantized
+    reciprocal of the pool area OF THAT SAME INPUT (`recipAreaHW` of `E.x`; no configuration field,
+    no build-time shape). -/
 theorem C11_dropin_globalAvgPool (I : Interp T) (E : Env T) (c : LCfg) (hq : c.hasQ 0 = true) :
     eval I E (qlayer .globalAvgPool2d c) =
       actOf c E (I.op2 .mul (I.op1 (.sumHW c.pool.df c.keepdims) E.x)
-        (E.quant 0 (I.const (1 / (c.area : Rat))))) := by
-  simp only [qlayer, qGlobalAvgPool2d, withAct, actOf, hq, recip]
+        (E.quant 0 (I.op1 (.recipAreaHW c.pool.df) E.x))) := by
+  simp only [qlayer, qGlobalAvgPool2d, withAct, actOf, hq, recipIn]
   cases c.hasAct <;> simp [eval]
 
 /-- pooling layers without an average quantizer call the stock layer -/
@@ -143,15 +153,19 @@ theorem C11_quantFree_eval (I : Interp T) (E : Env T) (q' : Nat → T → T) (t 
 /-! ## 2. no quantizers configured: the two transcriptions are the SAME term -/
 
 theorem C11_no_quantizer (cls : Cls) (c : LCfg) (hcls : cls ≠ .activation)
-    (hq : ∀ s, c.hasQ s = false) (ha : c.hasAct = false) (hm : c.hasMask = false) :
+    (hq : ∀ s, c.hasQ s = false) (ha : c.hasAct = false) (hm : c.hasMask = false)
+    (hcf : CausalOK cls c) :
     qlayer cls c = kerasLayer cls c := by
+  have hcf' : cls = .conv1d → c.conv.padding = .causal → spatialStart c.conv = 1 := by
+    intro h1 h2; simp [spatialStart, hcf h1 h2]
   cases cls <;>
   simp only [qlayer, kerasLayer, qDense, kDense, qConv1d, kConv1d, kConv1dOp, qConv2d, kConv2d,
     qSepConv1d, kSepConv1d, qSepConv2d, kSepConv2d, qDwConv2d, kDwConv2d, qAvgPool2d, kAvgPool2d,
     qGlobalAvgPool2d, kGlobalAvgPool2d, qScaleShift, kScaleShift, qw, withAct, hq, ha, hm] <;>
   first
     | exact absurd rfl hcls
-    | (cases c.useBias <;> (try by_cases hp : c.conv.padding = .causal) <;> simp [*])
+    | (cases c.useBias <;> (try by_cases hp : c.conv.padding = .causal) <;>
+        (try have := hcf' rfl) <;> simp_all)
 
 /-! ## 3. recurrent layers -/
 
@@ -357,9 +371,161 @@ theorem C11_dropin_sepConv1d_elementwise (c : LCfg) (x : Tensor) (ws : List Tens
     (fun _ => C11_elementwise_commutes_expandDims _ f0 hf0)
     (fun _ => C11_elementwise_commutes_expandDims _ f1 hf1)
 
+/-! ## 6. one layer object used several times; the process-wide data-format switch; 1-D channels_first -/
+
+/-- the transcribed `call` of EVERY feed-forward class mentions no build-time node: its value is a
+    function of (configuration, weights, mask, quantizer functions, input of the current call) only -/
+theorem C11_qlayer_buildFree (cls : Cls) (c : LCfg) : buildFree (qlayer cls c) = true := by
+  cases cls <;>
+  simp only [qlayer, qDense, qActivation, qConv1d, kConv1dOp, qConv2d, qSepConv1d, qSepConv2d, qDwConv2d,
+    qAvgPool2d, qGlobalAvgPool2d, qScaleShift, qw, withAct, recip, recipIn] <;>
+  cases c.hasAct <;> cases c.useBias <;> cases c.hasQ 0 <;> cases c.hasQ 1 <;> cases c.hasQ 2 <;>
+  cases c.hasMask <;> (try by_cases hp : c.conv.padding = .causal) <;> simp [buildFree, *]
+
+/-- … and so does the stock transcription -/
+theorem C11_kerasLayer_buildFree (cls : Cls) (c : LCfg) : buildFree (kerasLayer cls c) = true := by
+  cases cls <;>
+  simp only [kerasLayer, kDense, kConv1d, kConv2d, kSepConv1d, kSepConv2d, kDwConv2d, kAvgPool2d,
+    kGlobalAvgPool2d, kScaleShift] <;>
+  cases c.useBias <;> (try by_cases hp : c.conv.padding = .causal) <;> simp [buildFree, *]
+
+/-- a build-free term does not see what the object saw before -/
+theorem C11_buildFree_eval (I : Interp T) (E : Env T) (s' : Nat → T) (t : Term)
+    (h : buildFree t = true) : eval I { E with state := s' } t = eval I E t := by
+  induction t with
+  | state j => simp [buildFree] at h
+  | quant s t ih => simp only [eval]; rw [ih (by simpa [buildFree] using h)]
+  | actv s t ih => simp only [eval]; rw [ih (by simpa [buildFree] using h)]
+  | op1 o t ih => simp only [eval]; rw [ih (by simpa [buildFree] using h)]
+  | op2 o a b iha ihb =>
+    simp only [buildFree, Bool.and_eq_true] at h
+    simp only [eval]; rw [iha h.1, ihb h.2]
+  | op3 o a b c iha ihb ihc =>
+    simp only [buildFree, Bool.and_eq_true] at h
+    simp only [eval]; rw [iha h.1.1, ihb h.1.2, ihc h.2]
+  | _ => rfl
+
+/-- NO STATE IS CARRIED BETWEEN CALLS: for every history of inputs (any length, any shapes — the
+    carrier is arbitrary), the k-th call of one layer object returns what a fresh object, built on
+    and called once with the k-th input, returns; both are `eval` of the layer term at that input. -/
+theorem C11_object_history (I : Interp T) (E : Env T) (cls : Cls) (c : LCfg) (xs : List T) :
+    objectCalls I E (qlayer cls c) xs = freshCalls I E (qlayer cls c) xs ∧
+    objectCalls I E (qlayer cls c) xs = xs.map fun x => eval I { E with x := x } (qlayer cls c) := by
+  have key : ∀ (s' : Nat → T) (x : T),
+      eval I { E with x := x, state := s' } (qlayer cls c) = eval I { E with x := x } (qlayer cls c) :=
+    fun s' x => C11_buildFree_eval I { E with x := x } s' _ (C11_qlayer_buildFree cls c)
+  cases xs with
+  | nil => simp [objectCalls, freshCalls]
+  | cons x0 xs => simp [objectCalls, freshCalls, key]
+
+/-- hence the drop-in equation holds at EVERY position of every history (plain classes) … -/
+theorem C11_object_history_dropin (I : Interp T) (E : Env T) (cls : Cls) (c : LCfg) (hc : Plain cls)
+    (hm : c.hasMask = false) (ha : cls = .activation → c.hasAct = true) (hcf : CausalOK cls c)
+    (xs : List T) :
+    objectCalls I E (qlayer cls c) xs =
+      xs.map fun x => actOf c E (eval I (preEnv c { E with x := x }) (kerasLayer cls c)) := by
+  rw [(C11_object_history I E cls c xs).2]
+  apply List.map_congr_left
+  intro x _
+  exact C11_dropin I { E with x := x } cls c hc hm ha hcf
+
+/-- … and for QGlobalAveragePooling2D every call multiplies the pooling sum of ITS input with the
+    quantized reciprocal area of ITS input -/
+theorem C11_object_history_globalAvgPool (I : Interp T) (E : Env T) (c : LCfg) (hq : c.hasQ 0 = true)
+    (xs : List T) :
+    objectCalls I E (qlayer .globalAvgPool2d c) xs =
+      xs.map fun x => actOf c E (I.op2 .mul (I.op1 (.sumHW c.pool.df c.keepdims) x)
+        (E.quant 0 (I.op1 (.recipAreaHW c.pool.df) x))) := by
+  rw [(C11_object_history I E .globalAvgPool2d c xs).2]
+  apply List.map_congr_left
+  intro x _
+  exact C11_dropin_globalAvgPool I { E with x := x } c hq
+
+/-- the global-pooling term does not read the configuration's `area` field (it has no build-time
+    shape in it); concretely the reciprocal is `1/(h·w)` of the tensor of the call, either format -/
+theorem C11_globalAvgPool_no_build_shape (c : LCfg) (a : Nat) :
+    qlayer .globalAvgPool2d { c with area := a } = qlayer .globalAvgPool2d c := rfl
+
+theorem C11_globalAvgPool_area_per_call (x : Tensor) (b h w ch : ℕ) (hp : 0 < h * w) :
+    (x.shape = [b, h, w, ch] →
+      op1C (.recipAreaHW .channelsLast) x = { Tensor.scalar (1 / ((h * w : ℕ) : ℚ)) with ok := x.ok }) ∧
+    (x.shape = [b, ch, h, w] →
+      op1C (.recipAreaHW .channelsFirst) x = { Tensor.scalar (1 / ((h * w : ℕ) : ℚ)) with ok := x.ok }) :=
+  ⟨fun hs => recipAreaC_last x b h w ch hs hp, fun hs => recipAreaC_first x b h w ch hs hp⟩
+
+/-- a layer that caches the quantized reciprocal in `build` (seed C11-5) is indistinguishable from
+    the real one by fresh-object single calls … -/
+theorem C11_build_cache_invisible_to_single_calls (I : Interp T) (E : Env T) (c : LCfg)
+    (hq : c.hasQ 0 = true) (xs : List T) :
+    freshCalls I E (qGlobalAvgPool2dBuildCached c) xs = freshCalls I E (qlayer .globalAvgPool2d c) xs := by
+  simp only [freshCalls, qlayer, qGlobalAvgPool2d, qGlobalAvgPool2dBuildCached, withAct, hq, recipIn]
+  cases c.hasAct <;> simp [eval]
+
+/-- … but is not drop-in on a history: second call on an input of another area -/
+theorem C11_build_cache_counterexample :
+    ∃ (I : Interp Int) (E : Env Int) (c : LCfg) (xs : List Int),
+      c.hasQ 0 = true ∧
+      objectCalls I E (qGlobalAvgPool2dBuildCached c) xs ≠ objectCalls I E (qlayer .globalAvgPool2d c) xs := by
+  refine ⟨{ const := fun _ => 0, op1 := fun o t => match o with | .sumHW _ _ => 1 | _ => t,
+            op2 := fun _ a b => a * b, op3 := fun _ a _ _ => a },
+          { x := 0, state := fun _ => 0, weight := fun _ => 0, mask := 0,
+            quant := fun _ t => t, actv := fun _ t => t },
+          { hasQ := fun _ => true }, [4, 9], rfl, ?_⟩
+  simp [objectCalls, qlayer, qGlobalAvgPool2d, qGlobalAvgPool2dBuildCached, withAct, recipIn, eval]
+
+/-- no feed-forward `call` reads the process-wide `K.image_data_format()` of the moment of the call
+    (QDense passes `data_format="channels_last"`, the others `self.data_format`) … -/
+theorem C11_feedforward_ignores_global_format (cls : Cls) (c : LCfg) (g : DataFormat) :
+    qlayer cls { c with imageDF := g } = qlayer cls c ∧
+    kerasLayer cls { c with imageDF := g } = kerasLayer cls c := by
+  cases cls <;> exact ⟨rfl, rfl⟩
+
+/-- … QDense does not even read the layer-level data formats … -/
+theorem C11_dense_ignores_data_format (c : LCfg) (g : ConvGeom) (p : PoolGeom) (d : DataFormat) :
+    qlayer .dense { c with conv := g, pool := p, imageDF := d } = qlayer .dense c := rfl
+
+/-- … and a QDense whose bias add follows the switch (seed C11-6) is not drop-in -/
+theorem C11_global_bias_format_counterexample :
+    ∃ (I : Interp Int) (E : Env Int) (c : LCfg),
+      eval I E (qDenseGlobalBias c) ≠ actOf c E (eval I (preEnv c E) (kerasLayer .dense c)) ∧
+      eval I E (qDenseGlobalBias { c with imageDF := .channelsLast }) =
+        actOf c E (eval I (preEnv c E) (kerasLayer .dense c)) := by
+  refine ⟨{ const := fun _ => 0, op1 := fun _ t => t,
+            op2 := fun o a b => match o with | .biasAdd .channelsFirst => a + 2 * b | _ => a + b,
+            op3 := fun _ a _ _ => a },
+          { x := 0, state := fun _ => 0, weight := fun _ => 1, mask := 0,
+            quant := fun _ t => t, actv := fun _ t => t },
+          { hasQ := fun _ => false, imageDF := .channelsFirst }, ?_, ?_⟩ <;>
+  simp [qDenseGlobalBias, kerasLayer, kDense, qw, withAct, actOf, preEnv, eval]
+
+/-- the recurrent cells (qkeras and stock alike) do call `K.bias_add` without a format, on rank-2
+    tensors, where both formats are the same function (concrete model) -/
+theorem C11_cell_bias_rank2_format_free (x bias : Tensor) (b n : ℕ) (hs : x.shape = [b, n]) :
+    op2C (.biasAdd .channelsFirst) x bias = op2C (.biasAdd .channelsLast) x bias :=
+  biasAddC_rank2 x bias b n hs
+
+/-- COUNTEREXAMPLE (recorded finding C11-conv1d-causal-channels-first): QConv1D(padding='causal',
+    data_format='channels_first') pads axis 1 — the channel axis — inside `K.conv1d`, the stock layer
+    pads the time axis (axis 2): an interpretation that tells the two pads apart. -/
+theorem C11_conv1d_causal_channelsFirst_counterexample :
+    ∃ (I : Interp Int) (E : Env Int) (c : LCfg),
+      c.conv.padding = .causal ∧ c.conv.df = .channelsFirst ∧
+      eval I E (qlayer .conv1d c) ≠ actOf c E (eval I (preEnv c E) (kerasLayer .conv1d c)) := by
+  refine ⟨{ const := fun _ => 0, op1 := fun o t => match o with | .padLeft ax _ => ax | _ => t,
+            op2 := fun _ a _ => a, op3 := fun _ a _ _ => a },
+          { x := 0, state := fun _ => 0, weight := fun _ => 0, mask := 0,
+            quant := fun _ t => t, actv := fun _ t => t },
+          { hasQ := fun _ => false, useBias := false, kernel := 2,
+            conv := { strides := [1], padding := .causal, dilation := [1], df := .channelsFirst } },
+          rfl, rfl, ?_⟩
+  simp [qlayer, kerasLayer, qConv1d, kConv1d, kConv1dOp, qw, withAct, actOf, preEnv, eval, spatialStart]
+
 /-! ### non-vacuity: the hypotheses used above are satisfiable -/
 
 example : Plain .conv2d := by simp [Plain]
+example : CausalOK .conv1d ({ hasQ := fun _ => false, conv := ⟨[2], .causal, [1], .channelsLast⟩ } : LCfg) :=
+  fun _ _ => rfl
+example : CausalOK .conv2d { hasQ := fun _ => false } := by intro h; simp at h
 example : (1 : ℕ) * 2 + 2 ≤ 5 ∧ 0 < 2 * 2 := by omega
 example : (QSpec.bits { bits := 4, integer := 0, symmetric := true, keepNeg := true, alpha := none }).scalarFn
     = some (qbits .even { bits := 4, integer := 0, symmetric := true, keepNeg := true, alpha := none }) := rfl
